@@ -46,7 +46,7 @@ func checkOpt(c optCase, repeat int) (msg, discard string) {
 	if err != nil {
 		return "", "compile-error"
 	}
-	base := run.Exec(baseCode, univ.Copy(c.Input.X), steps, maxOuts, univ.Copy(c.Var.X))
+	base := run.Exec(baseCode, withSpare(univ.Copy(c.Input.X)), steps, maxOuts, withSpare(univ.Copy(c.Var.X)))
 	if base.Budget {
 		return "", "budget"
 	}
@@ -54,7 +54,7 @@ func checkOpt(c optCase, repeat int) (msg, discard string) {
 		return "gojq panicked: " + base.Panic, ""
 	}
 	baseline := render(base)
-	shared, sharedVar := univ.Copy(c.Input.X), univ.Copy(c.Var.X)
+	shared, sharedVar := withSpare(univ.Copy(c.Input.X)), withSpare(univ.Copy(c.Var.X))
 	snapshot, snapshotVar := univ.Copy(shared), univ.Copy(sharedVar)
 	for round := 0; round < repeat; round++ {
 		loader := gojq.NewModuleLoader([]string{dir}) // fresh: nothing loaded through it yet
